@@ -22,9 +22,10 @@ DOCS = {
     "noNodes": "{}",
     "notJson": '[{"@id": "http://example.org/n1"',
     "ldReject": '{"@context": 5, "@id": "http://example.org/n1"}',
+    "ldPanic": corpus.LD_PANIC_DOCS[0],
 }
 DCLASS = {"pass": "ok", "fail1": "ok", "fail3": "ok", "failNested": "ok", "noNodes": "okNoNodes",
-          "notJson": "notJson", "ldReject": "ldReject"}
+          "notJson": "notJson", "ldReject": "ldReject", "ldPanic": "ldReject"}
 LEXICAL_PROFILE = None
 
 
@@ -43,7 +44,7 @@ def run(tier):
     maxlen = 3 if tier == "quick" else 5
     kinds = sorted(DOCS)
     if tier == "quick":
-        kinds = ["fail1", "fail3", "failNested", "noNodes", "notJson", "pass"]
+        kinds = ["fail1", "fail3", "ldPanic", "noNodes", "notJson", "pass"]
     cfg = ("INIT HInit\nNEXT HNext\nINVARIANT Emit\nCONSTANTS\n  DocKinds = {%s}\n  ProfKinds = {\"flat\", \"nested\"}\n  MaxLen = %d\n"
            % (", ".join('"%s"' % k for k in kinds), maxlen))
     gen = vlib.run_tlc("ACVHist", "ACVHist", cfg, workers=4, timeout=300)
@@ -70,10 +71,13 @@ def run(tier):
         steps = [rnd.choice(["own", "own", "pass", "notJson", "noNodes", "fail3"]) for _ in range(12)]
         cases.append({"profile": p, "pkey": name, "docs": docs, "dclasses": dcl, "fresh": sorted(set(steps)),
                       "steps": steps, "handles": [rnd.randrange(2) for _ in steps]})
+    cases.extend(script_cases(rnd, 2 if tier == "quick" else 12))
     for i, c in enumerate(cases):
         c["id"] = "c09-%05d" % i
+        c.setdefault("steps", [x.get("dkey", "") for x in c.get("script", [])])
+        c.setdefault("pkey", "script")
     obs = vlib.run_harness("history", cases, "c09")
-    skipped = [o for o in obs if o.get("skipped")]
+    skipped = [o for o in obs if o.get("skipped") and "poisoned" not in o["skipped"]]
     if skipped:
         raise vlib.Infra("history cases skipped: %s" % skipped[0])
     lines, byid = proto.to_trace(obs)
@@ -103,11 +107,74 @@ def run(tier):
         "exhaustive": True,
         "samples": [{"profile": c["pkey"], "steps": c["steps"][:10],
                      "observed": ["%s:%s" % (x["kind"], x.get("sha", "")[:8]) for x in byid[c["id"]]["calls"]][:14]}
-                    for c in cases[:: max(1, len(cases) // 5)]][:5],
+                    for c in cases[:: max(1, len(cases) // 5)] if c["id"] in byid][:5],
         "checker_cmd": tr.cmd, "negative_control": "LeakHandleState -> %s" % neg.violated,
         "rejected": len(rejected), "known_findings_hit": sorted(V.known_hits),
     }, time.time() - t0, violations=len(V.violations))
     return rc
+
+
+SHADOW_B = """#%Validation Profile 1.0
+profile: uses built-in prefixes
+prefixes:
+  ex: http://example.org/ns#
+violation:
+  - named
+validations:
+  named:
+    targetClass: ex.T
+    message: core name required
+    propertyConstraints:
+      core.name:
+        minCount: 1
+      shapes.schema / shacl.name:
+        maxCount: 1
+"""
+SHADOW_A = """#%Validation Profile 1.0
+profile: redefines built-in prefixes
+prefixes:
+  ex: http://example.org/ns#
+  core: http://example.org/other-core#
+  shapes: http://example.org/other-shapes#
+  shacl: http://example.org/other-shacl#
+violation:
+  - named
+validations:
+  named:
+    targetClass: ex.T
+    message: other core name required
+    propertyConstraints:
+      core.name:
+        minCount: 1
+      shapes.schema / shacl.name:
+        maxCount: 1
+"""
+SHADOW_DOCS = {
+    "amf": json.dumps([{"@id": "http://example.org/n1", "@type": ["http://example.org/ns#T"],
+                        "http://a.ml/vocabularies/core#name": "x"}]),
+    "other": json.dumps([{"@id": "http://example.org/n1", "@type": ["http://example.org/ns#T"],
+                          "http://example.org/other-core#name": "x"}]),
+}
+
+
+def script_cases(rnd, n):
+    """profiles that redefine built-in prefixes compiled between uses of a profile that relies on them"""
+    out = []
+    for i in range(n):
+        script = [{"op": "compile", "pkey": "B", "handle": "hB1"}, {"op": "validateCompiled", "handle": "hB1", "dkey": "amf"},
+                  {"op": "validateCompiled", "handle": "hB1", "dkey": "other"}]
+        pool = [{"op": "validate", "pkey": "A", "dkey": "amf"}, {"op": "validate", "pkey": "A", "dkey": "other"},
+                {"op": "compile", "pkey": "A", "handle": "hA"}, {"op": "validate", "pkey": "B", "dkey": "amf"},
+                {"op": "validate", "pkey": "B", "dkey": "other"}, {"op": "compile", "pkey": "B", "handle": "hB2"},
+                {"op": "validateCompiled", "handle": "hB2", "dkey": "amf"}, {"op": "validateCompiled", "handle": "hB1", "dkey": "amf"},
+                {"op": "validateCompiled", "handle": "hA", "dkey": "other"}, {"op": "validateCompiled", "handle": "hA", "dkey": "amf"},
+                {"op": "validateCompiled", "handle": "hB2", "dkey": "other"}]
+        script += pool if i == 0 else pool[:3] + rnd.sample(pool[3:], len(pool) - 3)
+        script = [op for k, op in enumerate(script)
+                  if op["op"] != "validateCompiled" or any(p["op"] == "compile" and p.get("handle") == op["handle"] for p in script[:k])]
+        out.append({"profile": "", "profiles": {"A": SHADOW_A, "B": SHADOW_B}, "docs": SHADOW_DOCS,
+                    "dclasses": {"amf": "ok", "other": "ok"}, "fresh": [], "handles": [], "script": script})
+    return out
 
 
 def selftest(lines):
